@@ -1,6 +1,7 @@
 package codegen
 
 import (
+	"log"
 	"strconv"
 
 	"github.com/HobbyOSs/gosk/pkg/ocode"
@@ -23,12 +24,19 @@ func handleINT(ocode ocode.Ocode) []byte {
 		intNum = intNum[2:]
 	}
 	// Parse as decimal (base 10)
-	num, err := strconv.ParseInt(intNum, 10, 8) // Change base to 10
-	if err != nil {
-		panic("Failed to parse INT number (decimal): " + err.Error()) // Update panic message
+	// 割り込み番号は 0..255 (INT 0x80 など 128 以上も有効)。符号付き 8 ビットでパースすると
+	// 128 以上で panic していた。
+	num, err := strconv.ParseInt(intNum, 10, 16) // Change base to 10
+	if err != nil || num < 0 || num > 255 {
+		log.Printf("error: invalid INT number '%s' (must be 0..255)", ocode.Operands[0])
+		return nil
 	}
 
-	// 割り込み番号を追加
+	// INT 3 は 1 バイトのブレークポイント命令 (CC)。pass1 も 1 バイトとして数えている。
+	if num == 3 {
+		return []byte{0xCC}
+	}
+
 	binary = append(binary, byte(num))
 
 	return binary
